@@ -995,7 +995,7 @@ class Overflow(Unit):
         ["ran " + f for f in ("splitPairPos", "splitMarkBasePos", "splitSinglePos", "splitLigatureSubst", "splitMultipleSubst", "splitAlternateSubst")]
         + ["extension promotion ran (fixLookupOverFlows)", "DontShare set before splitting", "hb repacker produced the result", "hb.repack failed, pure-python packing of the hb graph used",
            "FT_FALLBACK state entered", "OTLOffsetOverflowError surfaced for an unsplittable table", "out: lookup promoted to extension", "out: more subtables than built",
-           "second compile after in-memory split: same shaping", "second compile under the other repacker: different bytes, same shaping", "compaction produced several subtables", "PairPos2 split with class renumbering read back"]
+           "second compile after in-memory split: same shaping", "second compile under the other repacker: different bytes, same shaping", "compaction produced several subtables", "compaction of an Extension lookup produced several subtables", "PairPos2 split with class renumbering read back"]
         + ["%s: %s" % (k, w) for k in sorted({fam_key(p["fam"], p["base"]) for p in PRIMARY}) for w in ("below boundary packs without resolution", "above boundary needs resolution")])
 
     def setup(self, tier, seed):
@@ -1041,7 +1041,8 @@ class Overflow(Unit):
         for G in (1, 2, 3, 4):
             for lv in range(0, 10):
                 for hbc in (("False", "None") if quick else HB_CFGS):
-                    for ext in ((0,) if quick else (0, 1)):
+                    # ext=1: the class kerning sits behind Extension subtables when it is compacted
+                    for ext in (0, 1):
                         out.append(["pairpos2", dict(c1=24, c2=20, G=G), hbc, lv, ext, None])
         if not quick:
             for lv in levels:
@@ -1087,6 +1088,8 @@ class Overflow(Unit):
             gpos_opt.compact(font, level)
             if max(len(l.SubTable) for l in tbl.table.LookupList.Lookup) > 1:
                 rec.witness("compaction produced several subtables")
+                if ext:
+                    rec.witness("compaction of an Extension lookup produced several subtables")
         built = [(l.LookupType, len(l.SubTable)) for l in tbl.table.LookupList.Lookup]
         rec.state([fam, kn, hbc, level, ext])
         rec.nontrivial()
